@@ -124,6 +124,7 @@ W0 == [ph |-> "fresh",      \* fresh | pre0 pre head tail exc els fin (suspended
        heldv |-> None,      \* response to P's message, delivered after the inserted tail messages
        tailq |-> <<>>,      \* inserted tail messages still to come after P's current message
        last |-> None,       \* the message the wrapper is suspended at (own or P's)
+       frag |-> FALSE,      \* an exception is being thrown into P while inserted tail messages were pending (see MCReactions)
        pend |-> NoR, caught |-> None, closing |-> FALSE,
        book |-> Book0, todo |-> TWait]
 
@@ -248,7 +249,8 @@ Own(s, op, a) ==
          [] op = "throw" ->
               [alts |-> CASE s.ph = "pre0" -> {Finish(s, R("raise", a))}
                           [] s.ph = "pre" -> EnterFin(s, R("raise", a))
-                          [] s.ph \in {"head", "tail"} -> {[s EXCEPT !.ph = "body", !.q = <<>>, !.tailq = <<>>, !.todo = TCall("throw", a)]}
+                          [] s.ph \in {"head", "tail"} -> {[s EXCEPT !.ph = "body", !.q = <<>>, !.tailq = <<>>, !.todo = TCall("throw", a),
+                                                                      !.frag = (s.ph = "tail")]}
                           [] OTHER -> {Finish(s, R("raise", a))},
                coded |-> {}]
          [] op = "close" ->
@@ -261,7 +263,7 @@ Own(s, op, a) ==
 AtP(s, op, a) ==
     IF op = "send" /\ s.tailq # <<>>
     THEN [Emit(s, "tail", s.tailq) EXCEPT !.heldv = a, !.tailq = <<>>]
-    ELSE [s EXCEPT !.tailq = <<>>, !.todo = TCall(op, a)]
+    ELSE [s EXCEPT !.tailq = <<>>, !.todo = TCall(op, a), !.frag = (op = "throw" /\ s.tailq # <<>>)]
 
 ----------------------------------------------------------------------------
 (* monitors *)
@@ -376,11 +378,15 @@ PAlphabet ==
       [] Kind \in {"monitor_during", "fly_during"} -> {M("open_run", 0, 0), M("close_run", 0, 0), M("null", 0, 10 + p.n + 1)}
       [] Kind \in C24Kinds -> {M("set", d, x) : d \in Devs, x \in Offsets} \cup {M("null", 0, 10 + p.n + 1)}
       [] OTHER -> {M("null", 0, 10 + p.n + 1)}
+\* Environment restriction (documented in notes/C23.md): a plan does not SURVIVE an exception that arrives while inserted
+\* tail messages of its current message are pending / being emitted (w.frag).  The real plan_mutator leaves a stale
+\* tail_cache / tail_result_cache entry keyed by id() of the dead generator in that case, and what happens next depends on
+\* CPython's reuse of object ids -- a defect of plan_mutator (C21), allocator dependent, outside C23's statement.
 MCReactions(op, a) ==
     LET y == IF p.n < PMsgs THEN {R("yield", m) : m \in PAlphabet} ELSE {}
         own == {R("raise", V(c, 1)) : c \in PRaise}
     IN CASE op = "send" -> y \cup {R("return", V("", 101))} \cup own
-         [] op = "throw" -> {R("raise", a)} \cup (IF CatchThrow THEN y \cup {R("return", V("", 101))} ELSE {})
+         [] op = "throw" -> {R("raise", a)} \cup (IF CatchThrow /\ ~w.frag THEN y \cup {R("return", V("", 101))} ELSE {})
          [] op = "close" -> {R("raise", GenExit)} \cup (IF MisbehaveClose THEN y \cup own ELSE {})
 \* how the driver answers the message the wrapper is suspended at
 Resp(m) == CASE m.m \in {"locate", "read"} /\ m.o \in Devs -> V("", pos[m.o])
